@@ -123,4 +123,148 @@ theorem parse_unambiguous (files₁ files₂ : List (Option Tree)) (fields₁ fi
   rw [hn, hp₂] at hp₁
   exact (Option.some.inj hp₁).symm
 
+/-! ### inputs outside the property's quantifier: the model follows the code there too -/
+
+/-- no input file (the command line forbids it, a direct call does not): the count `0` of the first
+requested field is written, then `field_width` is unbound — 8 bytes and an `UnboundLocalError` -/
+theorem emit_no_files (f : String) (fs : List String) :
+    emit false [] (f :: fs) = { written := le64 0, err := some .unboundWidth, closed := false } := rfl
+
+/-- a request for one field that is a 0-d array in some file: validation passes, then the count is
+written **as a float64** (`np.prod(())` is `1.0`), the width of the last file, the arrays of the
+files before the first 0-d one, and `[:]` raises `IndexError` — bytes have been written before the
+error (this is neither a missing file nor a missing field) -/
+theorem emit_zero_dim (files : List (Option Tree)) (f : String)
+    (hall : ∀ x ∈ files, x ≠ none) (hpres : ∀ t ∈ openAll files, (t.lookup f).isSome)
+    (h0 : ∃ c ∈ colsTotal (openAll files) f, c.shape = []) :
+    ∃ last, (colsTotal (openAll files) f).getLast? = some last ∧
+      emit false files [f] =
+        { written := f64le ((colsTotal (openAll files) f).map Column.count).sum ++
+            (le32 last.itemsize ++
+              (((colsTotal (openAll files) f).takeWhile (fun c => !c.shape.isEmpty)).map (·.raw)).flatten),
+          err := some .indexError, closed := false } := by
+  obtain ⟨c, hc, hs⟩ := h0
+  have hne : colsTotal (openAll files) f ≠ [] := List.ne_nil_of_mem hc
+  obtain ⟨last, hlast⟩ : ∃ last, (colsTotal (openAll files) f).getLast? = some last := by
+    cases h : (colsTotal (openAll files) f).getLast? with
+    | none => exact absurd (List.getLast?_eq_none_iff.mp h) hne
+    | some l => exact ⟨l, rfl⟩
+  have hany : (colsTotal (openAll files) f).any (fun c => c.shape.isEmpty) = true := by
+    rw [List.any_eq_true]
+    exact ⟨c, hc, by simp [hs]⟩
+  have hv : validateFields (openAll files) 0 [f] = none :=
+    validateFields_none.mpr (fun t ht g hg => by
+      simp only [List.mem_singleton] at hg; subst hg; exact hpres t ht)
+  refine ⟨last, hlast, ?_⟩
+  unfold emit
+  simp only [Bool.false_eq_true, if_false, firstMissingFile_none.mpr hall, hv, emitFields, fieldRecord,
+    columnsOf_eq hpres, hany, if_true, hlast]
+
+example : emit false [some [("a", ⟨[2], 1, [1, 2]⟩)], some [("a", ⟨[], 1, [7]⟩)]] ["a"] =
+    { written := [0, 0, 0, 0, 0, 0, 8, 0x40, 1, 0, 0, 0, 1, 2], err := some .indexError,
+      closed := false } := by decide
+
+/-! ### the command line -/
+
+/-- **cli_run.**  When the arguments parse, the bytes on stdout are exactly those of
+`unpack_to_pipe(files, fields)` and the exit status is 0 iff no exception; `--nthread` (and
+`verbose`, which only writes to stderr) do not influence them. -/
+theorem cli_run (fs : List (String × Tree)) (tty : Bool) (argv : List String)
+    (fields files : List String) (n : Nat) (h : parseArgv argv = .run ⟨some fields, files, n⟩) :
+    cli fs tty argv =
+      ((emit tty (files.map (fun fn => fs.lookup fn)) fields).written,
+       if (emit tty (files.map (fun fn => fs.lookup fn)) fields).err.isNone then 0 else 1) := by
+  simp only [cli, h]
+
+/-- a usage error, or a call without any `-f` (`fields=None`: `TypeError` before the first write),
+puts nothing on stdout -/
+theorem cli_error_writes_nothing (fs : List (String × Tree)) (tty : Bool) (argv : List String)
+    (h : parseArgv argv = .usage ∨ ∃ files n, parseArgv argv = .run ⟨none, files, n⟩) :
+    (cli fs tty argv).1 = [] ∧ (cli fs tty argv).2 ≠ 0 := by
+  rcases h with h | ⟨files, n, h⟩ <;> simp [cli, h]
+
+theorem parseLoop_nil (fuel : Nat) (st : PState) :
+    parseLoop fuel st [] =
+      if st.files.isEmpty then .usage else .run ⟨st.fields, st.files, st.nthread⟩ := by
+  cases fuel <;> rfl
+
+theorem parseLoop_files : ∀ (files : List String) (fuel : Nat) (st : PState),
+    st.raw = false → st.closed = false → (∀ f ∈ files, classify f = .plain f) →
+    files.length ≤ fuel →
+    parseLoop fuel st files =
+      if (st.files ++ files).isEmpty then .usage
+      else .run ⟨st.fields, st.files ++ files, st.nthread⟩ := by
+  intro files
+  induction files with
+  | nil => intro fuel st _ _ _ _; simp [parseLoop_nil]
+  | cons t rest ih =>
+    intro fuel st hraw hclosed hplain hlen
+    obtain ⟨flds, nt, fls, cl, rw⟩ := st
+    simp only at hraw hclosed
+    subst hraw hclosed
+    cases fuel with
+    | zero => simp at hlen
+    | succ fuel =>
+      have ht := hplain t (by simp)
+      have := ih fuel ⟨flds, nt, fls ++ [t], false, false⟩ rfl rfl
+        (fun f hf => hplain f (by simp [hf])) (by simpa using hlen)
+      simp only [parseLoop, Bool.false_eq_true, if_false, ht, PState.addFile, this]
+      simp
+
+/-- **parseArgv_canonical.**  The documented invocation `-f F₁ … -f Fₖ FILE₁ … FILEₘ` (k, m ≥ 1,
+names that do not look like options) is understood as fields `F₁ … Fₖ` **in the order given** (repeats
+kept) and files in the order given, `nthread = 4`. -/
+theorem parseArgv_canonical (fields files : List String) (hf : fields ≠ []) (hfiles : files ≠ [])
+    (hval : ∀ f ∈ fields, isValue f = true) (hplain : ∀ f ∈ files, classify f = .plain f) :
+    parseArgv (fields.flatMap (fun f => ["-f", f]) ++ files) = .run ⟨some fields, files, 4⟩ := by
+  have key : ∀ (fields : List String) (fuel : Nat) (st : PState), st.raw = false →
+      st.closed = false → st.files = [] → (∀ f ∈ fields, isValue f = true) →
+      2 * fields.length + files.length ≤ fuel →
+      parseLoop fuel st (fields.flatMap (fun f => ["-f", f]) ++ files) =
+        .run ⟨if fields = [] then st.fields else some (st.fields.getD [] ++ fields), files, st.nthread⟩ := by
+    intro fields
+    induction fields with
+    | nil =>
+      intro fuel st hraw hclosed hfs _ hlen
+      have := parseLoop_files files fuel st hraw hclosed hplain (by simpa using hlen)
+      simp only [List.flatMap_nil, List.nil_append, this, hfs, if_true]
+      simp [hfiles]
+    | cons f fs ih =>
+      intro fuel st hraw hclosed hfs hval hlen
+      obtain ⟨flds, nt, fls, cl, rw⟩ := st
+      simp only at hraw hclosed hfs
+      subst hraw hclosed hfs
+      cases fuel with
+      | zero => simp at hlen
+      | succ fuel =>
+        have hv := hval f (by simp)
+        have hcl : classify "-f" = .optF none := by decide +kernel
+        have := ih fuel (PState.addField ⟨flds, nt, [], false, false⟩ f) rfl rfl rfl
+          (fun g hg => hval g (by simp [hg]))
+          (by simp only [List.length_cons] at hlen; omega)
+        simp only [List.flatMap_cons, List.cons_append, List.nil_append, parseLoop,
+          Bool.false_eq_true, if_false, hcl, hv, if_true, this]
+        by_cases hnil : fs = []
+        · simp [hnil, PState.addField]
+        · simp [hnil, PState.addField, List.append_assoc]
+  have hlen : ∀ l : List String, (l.flatMap (fun f => ["-f", f])).length = 2 * l.length := by
+    intro l
+    induction l with
+    | nil => rfl
+    | cons a l ih => simp only [List.flatMap_cons, List.length_append, ih, List.length_cons,
+        List.length_nil]; omega
+  have := key fields (fields.flatMap (fun f => ["-f", f]) ++ files).length {} rfl rfl rfl hval
+    (by rw [List.length_append, hlen]; omega)
+  simp only [parseArgv, this, hf, if_false]
+  rfl
+
+example : classify "a.asdf" = .plain "a.asdf" ∧ classify "/data/b.asdf" = .plain "/data/b.asdf" ∧
+    isValue "pos" = true := by decide +kernel
+example : parseArgv ["-f", "pos", "-f", "vel", "-f", "pos", "a.asdf", "b.asdf"] =
+    .run ⟨some ["pos", "vel", "pos"], ["a.asdf", "b.asdf"], 4⟩ := by decide +kernel
+example : parseArgv ["--nthread=2", "-fpos", "--fie", "vel", "--", "a.asdf"] =
+    .run ⟨some ["pos", "vel"], ["a.asdf"], 2⟩ := by decide +kernel
+example : parseArgv ["a.asdf", "-f", "pos", "b.asdf"] = .usage := by decide
+example : parseArgv ["a.asdf"] = .run ⟨none, ["a.asdf"], 4⟩ := by decide +kernel
+
 end AbacusVerif.Pipe
